@@ -49,6 +49,8 @@ def config(rng, tier):
         "fault_rate": rng.choice([0.0, 0.1, 0.25, 0.4]),
         "disabled": disabled,
         "mix": rng.choice(["both", "both", "interval", "point"]),
+        # size class: mostly small tiers, sometimes tiers past any plausible small-n/large-n switch
+        "maxn": rng.choice([8] * 16 + [24, 24, 40, 120]),
     }
 
 
